@@ -59,8 +59,11 @@ func Eligible() []int {
 	}
 	for _, t := range hist.Targets {
 		ft := t.Typ
-		if ft.NumOut() == 0 {
+		if ft.NumOut() == 0 || t.Known != "" {
 			continue
+		}
+		if t.IsMethod && (t.SkipRecv == nil || !t.SkipRecv(0)) {
+			continue // As(sig) paths match the receiver as an ordinary first argument: covered as functions
 		}
 		k := ft.Out(0).Kind()
 		if k != reflect.Int && k != reflect.String {
@@ -434,7 +437,9 @@ func (x *exec) scall(op world.Op) {
 	want := x.stub.Call(margs)
 	var got []interface{}
 	var pv interface{}
-	useEval := op.F == 1 && x.when != nil && !x.t.Typ.IsVariadic()
+	// Eval is not used for variadic targets (it cannot express the variadic tail) nor for methods
+	// (it takes receiver-less arguments but the matchers strip a receiver again)
+	useEval := op.F == 1 && x.when != nil && !x.t.Typ.IsVariadic() && !x.t.IsMethod
 	if useEval {
 		// Eval takes the variadic elements expanded
 		pv = catch(func() { got = x.when.Eval(margs...) })
